@@ -282,7 +282,7 @@ func genHostile(t *rapid.T) string {
 		var sb strings.Builder
 		sb.WriteString("movement M { ")
 		for i := 0; i < n; i++ {
-			fmt.Fprintf(&sb, "s * %s ", rapid.SampledFrom([]string{"9999", "10000", "0", "-1", "0x270F", "99999999999999999999", "1"}).Draw(t, "mul"))
+			fmt.Fprintf(&sb, "s * %s ", rapid.SampledFrom([]string{"9999", "10000", "0", "-1", "0x270F", "99999999999999999999", "1", "9223372036854775807", "4000000000000", "0x7FFFFFFFFFFFFFFF", "00", "0x0"}).Draw(t, "mul"))
 		}
 		if rapid.Bool().Draw(t, "closem") {
 			sb.WriteString("}")
